@@ -25,6 +25,9 @@ type Job struct {
 	ScanBudget int64 `json:"scan_budget,omitempty"`
 	// typecheck parameters
 	TypeBudget int64 `json:"type_budget,omitempty"`
+	// AllocBudget: bytes the typecheck may allocate before the worker gives up on it (a
+	// deterministic stand-in for time; 0 = no limit)
+	AllocBudget uint64 `json:"alloc_budget,omitempty"`
 	SettleMs   int   `json:"settle_ms,omitempty"` // how long to watch the checker goroutine after Typecheck returned
 
 	Seq     []Job     `json:"seq,omitempty"`
@@ -111,6 +114,10 @@ type Counts struct {
 	Types     int        `json:"types"`
 	TypeNames []string   `json:"type_names"`
 	Assumed   int        `json:"assumed"`
+	// Idents: every occurrence of a (non-self) name in the bodies of processes and functions,
+	// with its explicit polarity mark, plus print / choice labels and called functions,
+	// sorted (a bag: what the parser read, to be held against what was written)
+	Idents []string `json:"idents,omitempty"`
 }
 
 type Result struct {
